@@ -72,6 +72,8 @@ pub struct Outcome {
     /// the run could not be evaluated for a reason that is the harness's, not
     /// the code's (exit 2, never a violation)
     pub harness_error: Option<String>,
+    /// (group label, item hash): distinct items are counted per group
+    pub groups: Vec<(String, u64)>,
 }
 
 impl Outcome {
@@ -88,6 +90,7 @@ impl Outcome {
             faulty_cfg: false,
             units: 1,
             harness_error: None,
+            groups: Vec::new(),
         }
     }
 }
